@@ -28,13 +28,36 @@ var yieldTarget atomic.Value // chan struct{}
 
 func armYield(ch chan struct{}) { yieldTarget.Store(ch) }
 
+// perturb, when set, makes the yield hook inject Gosched calls (concurrent variants)
+var perturb atomic.Value // *perturbation
+
+type perturbation struct {
+	script []int
+	pos    int32
+}
+
+func setPerturb(script []int) {
+	if len(script) == 0 {
+		perturb.Store((*perturbation)(nil))
+		return
+	}
+	perturb.Store(&perturbation{script: script})
+}
+
 func init() {
 	armYield(nil)
+	setPerturb(nil)
+	// installed once: the hook variable itself is never written again (the library reads it without synchronisation)
 	capnp.VerifYield = func(site string) {
 		if ch, _ := yieldTarget.Load().(chan struct{}); ch != nil {
 			select {
 			case ch <- struct{}{}:
 			default:
+			}
+		}
+		if p, _ := perturb.Load().(*perturbation); p != nil {
+			for i, k := 0, p.script[int(atomic.AddInt32(&p.pos, 1))%len(p.script)]; i < k; i++ {
+				runtime.Gosched()
 			}
 		}
 	}
@@ -95,6 +118,7 @@ type mcall struct {
 type pending struct {
 	what string
 	done chan struct{}
+	pv   *interface{}
 }
 
 type machine struct {
@@ -143,7 +167,7 @@ func (m *machine) runOp(what string, blocking bool, f func()) error {
 		f()
 	}()
 	if blocking {
-		m.pend = append(m.pend, pending{what, done})
+		m.pend = append(m.pend, pending{what, done, &pv})
 		if strings.HasSuffix(what, "Call") {
 			return nil // calls are synchronised on the hook's own start event
 		}
@@ -512,6 +536,9 @@ func run(c Case) (pbt.Result, error) {
 	for _, p := range m.pend {
 		select {
 		case <-p.done:
+			if *p.pv != nil {
+				return res, pbt.Fail("panic/"+p.what, "%s panicked: %v", p.what, *p.pv)
+			}
 		case <-time.After(deadline):
 			return res, pbt.Fail("hang/"+p.what, "%s never returned although all calls have finished", p.what)
 		}
@@ -580,26 +607,8 @@ func runConcurrent(c concCase) (pbt.Result, error) {
 		return res, nil
 	}
 	log := &capsim.Log{}
-	var pi int32
-	capnp.VerifYield = func(site string) {
-		if len(c.Perturb) == 0 {
-			return
-		}
-		k := c.Perturb[int(atomic.AddInt32(&pi, 1))%len(c.Perturb)]
-		for i := 0; i < k; i++ {
-			runtime.Gosched()
-		}
-	}
-	defer func() {
-		capnp.VerifYield = func(site string) {
-			if ch, _ := yieldTarget.Load().(chan struct{}); ch != nil {
-				select {
-				case ch <- struct{}{}:
-				default:
-				}
-			}
-		}
-	}()
+	setPerturb(c.Perturb)
+	defer setPerturb(nil)
 	var hooks []*capsim.Hook
 	var nextHandle int32
 	newH := func(cl *capnp.Client, lineage int) *chandle {
